@@ -258,7 +258,7 @@ func init() {
 		"js_parser.(*parser).visitAndAppendStmt SLocal{Kind: LocalUsing} #2",
 		"js_parser.(*parser).visitAndAppendStmt SLocal{Kind: LocalUsing} #3",
 	} {
-		c08Guards[k] = []excGuard{{"js_parser.(*parser).visitAndAppendStmt", modPath + "/internal/js_parser.parser).selectLocalKind", 1}}
+		c08Guards[k] = []excGuard{{fn: "js_parser.(*parser).visitAndAppendStmt", callee: modPath + "/internal/js_parser.parser).selectLocalKind", n: 1}}
 	}
 }
 
